@@ -1753,6 +1753,9 @@ Qed.
 End Screen.
 
 (* ================================================================ the theorems *)
+(* every session: the shield clauses (setup/refresh/show never beneath an open modal frame) and the
+   matching of returns to frames hold; under the trace hypothesis [no_f13] every return finds its
+   frame closed *)
 Theorem C05_shield_session specs specl typed quit run_empty fuel acts :
   let t := rev (trace (snd (app_run_all specs specl typed quit run_empty fuel acts))) in
   sok chk_C05_shield_partial typed t = true /\ (no_f13 t = true -> sok chk_C05_shield typed t = true).
@@ -1760,4 +1763,158 @@ Proof.
   intros t. destruct (app_run_all_ok specs typed specl typed quit run_empty fuel acts) as [A1 A2].
   split; [apply sok_iff; exact A1|]. intros H. apply sok_iff. apply A2. exact H.
 Qed.
-Print Assumptions C05_shield_session.
+
+(* ---- the full acceptors are the proved part and the input clause ---- *)
+Lemma srun_mon_and c1 c2 t : forall w i,
+  srun_mon (fun w e => c1 w e && c2 w e) w t i = None <-> srun_mon c1 w t i = None /\ srun_mon c2 w t i = None.
+Proof.
+  induction t as [|e r IH]; intros w i; cbn [srun_mon]; [tauto|].
+  destruct (c1 w e), (c2 w e); cbn [andb]; try (split; [discriminate|intros [X Y]; discriminate]).
+  apply IH.
+Qed.
+Lemma srun_mon_ext c1 c2 t : (forall w e, c1 w e = c2 w e) -> forall w i, srun_mon c1 w t i = srun_mon c2 w t i.
+Proof. intros H. induction t as [|e r IH]; intros w i; cbn [srun_mon]; [reflexivity|]. rewrite H, IH. reflexivity. Qed.
+
+Lemma sok_C05_gen_split strict typed t :
+  sok (chk_C05_gen strict) typed t = sok (chk_C05_shield_gen strict) typed t && sok chk_C05_input typed t.
+Proof.
+  pose proof (srun_mon_and (chk_C05_shield_gen strict) chk_C05_input t (sworld0 typed) 0) as H.
+  rewrite <- (srun_mon_ext (chk_C05_gen strict) _ t (chk_C05_gen_split strict)) in H.
+  unfold sok. destruct (srun_mon (chk_C05_gen strict) (sworld0 typed) t 0) as [k|].
+  - destruct (srun_mon (chk_C05_shield_gen strict) (sworld0 typed) t 0), (srun_mon chk_C05_input (sworld0 typed) t 0);
+      try reflexivity. destruct H as [_ H]. discriminate (H (conj eq_refl eq_refl)).
+  - destruct H as [H _]. destruct (H eq_refl) as [-> ->]. reflexivity.
+Qed.
+
+(* the monitors of ScreenMon.v on session traces: only the T_INPUT clause is left to be observed *)
+Theorem C05_session_modulo_input specs specl typed quit run_empty fuel acts :
+  let t := rev (trace (snd (app_run_all specs specl typed quit run_empty fuel acts))) in
+  sok chk_C05_partial typed t = sok chk_C05_input typed t /\
+  (no_f13 t = true -> sok chk_C05 typed t = sok chk_C05_input typed t).
+Proof.
+  intros t. destruct (C05_shield_session specs specl typed quit run_empty fuel acts) as [H1 H2]. fold t in H1, H2.
+  split.
+  - unfold chk_C05_partial. rewrite sok_C05_gen_split. fold chk_C05_shield_partial. rewrite H1. reflexivity.
+  - intros N. unfold chk_C05. rewrite sok_C05_gen_split. fold chk_C05_shield. rewrite (H2 N). reflexivity.
+Qed.
+
+(* ================================================================ the caller resumes: one unfolding *)
+Section Eq.
+Variable specs : nat -> screen_spec.
+Notation code := (screen_code specs).
+Notation st := (lstate sstate).
+
+Lemma exec_seq f p q (s : st) : exec code (S f) (CProg (p ;; q)) s =
+  let '(o, s1) := exec code f (CProg p) s in match o with ONormal => exec code f (CProg q) s1 | _ => (o, s1) end.
+Proof. reflexivity. Qed.
+Lemma exec_emit f e (s : st) : exec code (S f) (CProg (PEmit e)) s = (ONormal, emit (user_event e) s).
+Proof. reflexivity. Qed.
+Lemma exec_rd f k (s : st) : exec code (S f) (CProg (rd k)) s = exec code f (CProg (k (ust s))) (s <| ust := ust s |>).
+Proof. reflexivity. Qed.
+Lemma exec_wr f g (s : st) : exec code (S (S f)) (CProg (wr g)) s = (ONormal, s <| ust := g (ust s) |>).
+Proof. reflexivity. Qed.
+Lemma exec_api f a (s : st) : exec code (S f) (CProg (PApi a)) s = exec code f (CApi a) s.
+Proof. reflexivity. Qed.
+
+(* push_screen_modal inside a command list: the operation is announced, the entry appended, the nested loop
+   run; when it returns normally the very next step is the T_MODAL_RETURN event and then the REST of the
+   caller's commands, from the state the nested loop left; any other outcome is passed on unchanged *)
+Lemma caller_resumes_eq f cn self cnt scr a rest (s : st) :
+  let d := {| sd_id := st_next_sd (ust s); sd_scr := scr; sd_args := a; sd_modal := true |} in
+  let s1 := emit (EUser T_STACK [K_APPEND; sd_id d; scr; a; 1] [])
+                 ((emit (EUser T_OP [O_PUSH_MODAL; scr; a] []) s)
+                    <| ust := (ust s) <| st_next_sd := S (st_next_sd (ust s)) |> <| st_stack := d :: st_stack (ust s) |> |>) in
+  exec code (8 + f) (CProg (do_scmds specs cn self cnt (SPushModal scr a :: rest))) s =
+  let '(o, s2) := exec code f (CApi (ANewLoop (render_spec None))) s1 in
+  match o with
+  | ONormal => exec code (7 + f) (CProg (do_scmds specs cn self cnt rest))
+                    (emit (EUser T_MODAL_RETURN [sd_id d; scr] []) s2)
+  | _ => (o, s2)
+  end.
+Proof.
+  intros d s1. cbn [do_scmds do_scmd plus]. unfold new_sd, ev_stack, ev.
+  rewrite exec_seq. rewrite exec_seq. rewrite exec_emit. rewrite exec_rd. cbv beta zeta.
+  rewrite exec_seq, exec_wr. rewrite exec_seq, exec_wr. rewrite exec_seq, exec_emit. rewrite exec_seq, exec_api.
+  destruct s as [qs lv ac hs tk rl fq qc ns ex tr u].
+  match goal with |- context [exec code f (CApi _) ?x] => change x with s1 end.
+  destruct (exec code f (CApi (ANewLoop (render_spec None))) s1) as [o s2].
+  destruct o; reflexivity.
+Qed.
+End Eq.
+
+(* ================================================================ example sessions (evaluated in props/C05.v) *)
+Module C05Ex.
+Definition k1 : str := [49%N]. Definition k2 : str := [50%N]. Definition kc : str := [99%N].
+Definition kx : str := [120%N]. Definition ky : str := [121%N].
+Definition scr (refresh show : list scmd) (inp : list (str * (list scmd * ret_val))) : screen_spec :=
+  {| sc_setup := []; sc_refresh := refresh; sc_show := show; sc_closed := []; sc_input := inp;
+     sc_input_default := ([], None); sc_prompt_none := false; sc_input_required := true;
+     sc_no_separator := false; sc_skip_check := false; sc_pages := 0 |}.
+(* a screen that never asks for input *)
+Definition quiet (refresh show : list scmd) : screen_spec :=
+  {| sc_setup := []; sc_refresh := refresh; sc_show := show; sc_closed := []; sc_input := [];
+     sc_input_default := ([], Some RProcessed); sc_prompt_none := false; sc_input_required := false;
+     sc_no_separator := false; sc_skip_check := false; sc_pages := 0 |}.
+Definition session (specl : list screen_spec) (typed : list (option str)) (acts : list saction) : list outcome * list event :=
+  let '(os, st) := app_run_all (fun n => nth n specl default_spec) specl typed None false 2000 acts in
+  (os, rev (trace st)).
+Definition start := [SACmds [SSchedule 0 0]; SARun].
+Definition count_tag (tag : nat) (t : list event) : nat :=
+  length (filter (fun e => match e with EUser g _ _ => (g =? tag)%nat | _ => false end) t).
+
+(* 1. modal pushed from input(); inside it: a push, its close, a replace (the replacement takes the frame over), its close *)
+Definition ex1_specs := [ scr [] [] [(k1, ([SPushModal 1 0], RProcessed))];
+                          scr [] [] [(k1, ([SPush 2 0], RProcessed)); (k2, ([SReplace 3 7], RProcessed))];
+                          scr [] [] []; scr [] [] [] ].
+Definition ex1_typed := map Some [k1; k1; kc; k2; kc; kc].
+Definition ex1 := session ex1_specs ex1_typed start.
+(* 2. modal pushed from refresh() *)
+Definition ex2_specs := [ scr [SIfCount 1 [SPushModal 1 0] []] [] [];
+                          scr [] [] [(k1, ([SPush 2 0], RProcessed))]; scr [] [] [] ].
+Definition ex2_typed := map Some [k1; kc; kc; kc].
+Definition ex2 := session ex2_specs ex2_typed start.
+(* 3. modal pushed from show_all() *)
+Definition ex3_specs := [ scr [] [SIfCount 1 [SPushModal 1 0] []] [];
+                          scr [] [] [(k1, ([SReplace 2 0], RProcessed))]; scr [] [] [] ].
+Definition ex3_typed := map Some [k1; kc; kc].
+Definition ex3 := session ex3_specs ex3_typed start.
+(* 4. a modal from a modal from a modal, with a push and its close at depth 2 *)
+Definition ex4_specs := [ scr [] [] [(k1, ([SPushModal 1 0], RRedraw))];
+                          scr [] [] [(k1, ([SPushModal 2 0], RRedraw))];
+                          scr [] [] [(k1, ([SPushModal 3 0], RRedraw)); (k2, ([SPush 4 0], RProcessed))];
+                          scr [] [] []; scr [] [] [] ].
+Definition ex4_typed := map Some [k1; k1; k2; kc; k1; kc; kc; kc; kc].
+Definition ex4 := session ex4_specs ex4_typed start.
+
+(* finding F13 at the screen level: input() of a modal screen closes it and pushes another modal screen *)
+Definition f13_specs := [ scr [] [] [(k1, ([SPushModal 1 0], RRedraw))];
+                          scr [] [] [(k1, ([SCloseNow; SPushModal 2 0], RProcessed))];
+                          scr [] [] [] ].
+Definition f13_typed := map Some [k1; k1; kc; kc].
+Definition f13 := session f13_specs f13_typed start.
+
+(* a hand-written trace: entry 0, a modal entry 1 on top of it, then a refresh of entry 0 *)
+Definition bad_trace : list event :=
+  [EUser T_STACK [K_APPEND; 0; 0; 0; 0] []; EUser T_STACK [K_APPEND; 1; 1; 0; 1] []; EUser T_REFRESH [0; 0; 0] []].
+
+(* finding F16: input() of a screen beneath an open modal screen.
+   cx1: the same screen object twice on the stack, beneath and above the modal screen *)
+Definition cx1_specs := [ quiet [SIfCount 1 [SPush 2 0] []] [];
+                          quiet [SIfCount 1 [SPush 2 7] []] [];
+                          {| sc_setup := []; sc_refresh := [SIfCount 1 [SPushModal 1 0] []]; sc_show := [SIfCount 1 [SCloseSig] []];
+                             sc_closed := []; sc_input := []; sc_input_default := ([], Some RProcessed);
+                             sc_prompt_none := false; sc_input_required := true; sc_no_separator := false;
+                             sc_skip_check := false; sc_pages := 0 |} ].
+Definition cx1_typed := [Some kx].
+Definition cx1 := session cx1_specs cx1_typed start.
+(* cx2: no screen twice; force_quit, then a second App.run() *)
+Definition cx2_specs := [ {| sc_setup := [];
+                             sc_refresh := [SIfCount 1 [SRedrawSig] [SIfCount 2 [SForceQuit] [SIfCount 3 [SRedrawSig]
+                                            [SIfCount 4 [SPushModal 1 0] []]]]];
+                             sc_show := []; sc_closed := []; sc_input := []; sc_input_default := ([], Some RRedraw);
+                             sc_prompt_none := false; sc_input_required := true; sc_no_separator := false;
+                             sc_skip_check := false; sc_pages := 0 |};
+                          quiet [] [] ].
+Definition cx2_typed := [Some kx; Some ky].
+Definition cx2 := session cx2_specs cx2_typed [SACmds [SSchedule 0 0]; SARun; SARun].
+End C05Ex.
